@@ -43,6 +43,7 @@ func C14(c *core.Ctx) {
 		for _, w := range core.Calls(aa, p.Method(pkgFwd, "Gtp5g", "WritePacket")) {
 			qerPerPDR(c, "R3", aa, w)
 		}
+		independentIterations(c, "R3", []*ssa.Function{aa})
 	}
 
 	for _, withExt := range []bool{true, false} {
